@@ -29,7 +29,7 @@ fn dump_buf(b: &ImageBuffer, out: &mut String) {
     }
 }
 
-fn decode(bytes: &[u8], wide: bool, threads: usize, region: Option<jxl_oxide::CropInfo>) -> String {
+fn decode(bytes: &[u8], wide: bool, threads: usize, region: Option<jxl_oxide::CropInfo>, streams: bool) -> String {
     let pool = if threads == 0 {
         JxlThreadPool::none()
     } else {
@@ -62,6 +62,30 @@ fn decode(bytes: &[u8], wide: bool, threads: usize, region: Option<jxl_oxide::Cr
         }
         return out;
     }
+    if streams {
+        // the integer output forms (8- and 16-bit sample streams, with alpha) of every keyframe: what a
+        // caller gets must not depend on the width of the Modular buffers either
+        for k in 0..image.num_loaded_keyframes() {
+            match image.render_frame(k) {
+                Err(e) => out.push_str(&format!(" kerr {}", err_class(&*e))),
+                Ok(r) => {
+                    let mut st = r.stream();
+                    let n = st.width() as usize * st.height() as usize * st.channels() as usize;
+                    let mut b8 = vec![0u8; n];
+                    let got = st.write_to_buffer(&mut b8);
+                    write!(out, " s8 {} {}", got, verif_harness::hex(&b8)).unwrap();
+                    let mut st = r.stream();
+                    let mut b16 = vec![0u16; n];
+                    let got = st.write_to_buffer(&mut b16);
+                    write!(out, " s16 {}", got).unwrap();
+                    for v in &b16 {
+                        write!(out, " {}", v).unwrap();
+                    }
+                }
+            }
+        }
+        return out;
+    }
     for k in 0..image.num_loaded_keyframes() {
         match image.render_frame(k) {
             Err(e) => {
@@ -88,7 +112,11 @@ fn main() {
             let mut wide = false;
             let mut threads = 0usize;
             let mut region = None;
+            let mut streams = false;
             for r in rest {
+                if *r == "streams=1" {
+                    streams = true;
+                }
                 if let Some(v) = r.strip_prefix("region=") {
                     let p: Vec<u32> = v.split(',').filter_map(|x| x.parse().ok()).collect();
                     if p.len() == 4 {
@@ -102,7 +130,7 @@ fn main() {
                     threads = v.parse().unwrap_or(0);
                 }
             }
-            match catch(|| decode(&bytes, wide, threads, region)) {
+            match catch(|| decode(&bytes, wide, threads, region, streams)) {
                 Ok(s) => s,
                 Err(p) => p,
             }
